@@ -33,6 +33,10 @@ CLAIMS = {
          'Framing: FindEndPos memory-safe for every buffer (nested loop contracts, unbounded) plus prefix determinism and equality with a reference scanner (bounded, len <= 10); HeaderStreamProto::onRecvData total for every buffer and every 32-bit length field, text handed to the JSON parser is exactly data[6..6+len), callback exactly once iff bytes are consumed, proved against the Deserializer contracts; RawStreamProto::onRecvData never claims more than given. Deadlines: TimeoutMonitor add/onTimerTick under unbounded contracts (one slot per tick, each value reported once in order, re-entrant adds survive, timer armed iff counter > 0) plus a concrete whole-ring scenario on the real bodies.',
          'Trusted: printer, CBMC, nlohmann::json opaque (parse may succeed or throw), std::string/vector/function models, explicit-instantiation driver for TimeoutMonitor<int>. Rpc request bookkeeping (unordered_map), PacketProto, Proto::onRecvJson field extraction and encoder/decoder value round trip are not covered.',
          'CBMC function/loop contracts on mechanically extracted C; bounded cross-checks', '6 C14'),
+ 'C15': ('other',
+         'DNS name decoder FetchDomain under an unbounded CBMC contract: every read inside the datagram (against the Deserializer contracts), label buffer written within its length, label loop terminates (decreases clause), recursion on compression pointers bounded by a strictly decreasing non-negative measure checked at the recursive call. The deadline wheel (TimeoutMonitor) and Deserializer units it rests on are re-checked in the same run.',
+         'Trusted: printer, CBMC, ostringstream as write-only sink (the produced name text is not decided), Deserializer/TimeoutMonitor contracts re-proved here. DnsRequest::onUdpRecv / request / cancel bookkeeping (std::map, callbacks) is not under contract: exactly-once completion is only covered through the TimeoutMonitor contracts.',
+         'CBMC function/loop contracts with a recursion measure on mechanically extracted C', '6 C15'),
  'C19': ('proof',
          'Per-function CBMC contracts and loop-free/complete-unwinding lemmas on the C re-printed from the real codec sources: size functions, frames (no write beyond capacity, no read outside input), exact inverse on every value, CRC/checksum/MD5/AES equal to reference definitions written from the standards.',
          'Trusted: clang-AST->C printer, CBMC+SAT, allocator never fails, libc models; std::string/vector overloads only through their shared loops; see evidence.assumptions.',
